@@ -114,11 +114,12 @@ var ctors = map[string]ctorInfo{
 	"VObj":     {SVal, []string{"oid"}, []Sort{SInt}},
 	"ENil":     {SErr, nil, nil},
 	"EErr":     {SErr, []string{"eid"}, []Sort{SInt}},
+	"EBuiltin": {SErr, []string{"efam"}, []Sort{SInt}},
 }
 
-var selCtor = map[string]string{"bval": "VBool", "ival": "VInt", "sval": "VStr", "ilid": "VIntList", "slid": "VStrList", "oid": "VObj", "eid": "EErr"}
+var selCtor = map[string]string{"bval": "VBool", "ival": "VInt", "sval": "VStr", "ilid": "VIntList", "slid": "VStrList", "oid": "VObj", "eid": "EErr", "efam": "EBuiltin"}
 
-func (t *T) isCtor() bool { _, ok := ctors[t.Op]; return ok }
+func (t *T) isCtor() bool  { _, ok := ctors[t.Op]; return ok }
 func (t *T) IsTrue() bool  { return t.Op == "true" }
 func (t *T) IsFalse() bool { return t.Op == "false" }
 func (t *T) isLit() bool   { return t.Op == "#int" }
@@ -126,7 +127,7 @@ func (t *T) isLit() bool   { return t.Op == "#int" }
 // Sym is an uninterpreted constant.
 func Sym(name string, s Sort) *T { return mk(name, s) }
 
-func Int(n int64) *T      { return &T{Op: "#int", Sort: SInt, Lit: big.NewInt(n)} }
+func Int(n int64) *T       { return &T{Op: "#int", Sort: SInt, Lit: big.NewInt(n)} }
 func IntBig(n *big.Int) *T { return &T{Op: "#int", Sort: SInt, Lit: new(big.Int).Set(n)} }
 func BoolT(b bool) *T {
 	if b {
@@ -142,6 +143,7 @@ func VIntList(i *T) *T { return mk("VIntList", SVal, i) }
 func VStrList(i *T) *T { return mk("VStrList", SVal, i) }
 func VObj(i *T) *T     { return mk("VObj", SVal, i) }
 func EErr(i *T) *T     { return mk("EErr", SErr, i) }
+func EBuiltin(i *T) *T { return mk("EBuiltin", SErr, i) }
 
 // App applies an uninterpreted or prelude-defined function.
 func App(fn string, s Sort, args ...*T) *T { return mk(fn, s, args...) }
@@ -532,7 +534,7 @@ var interpreted = map[string]bool{
 	"true": true, "false": true, "not": true, "and": true, "or": true, "xor": true, "ite": true, "=": true,
 	"+": true, "-": true, "<": true, "<=": true, ">": true, ">=": true, "#int": true,
 	"wrap64": true, "gomul": true, "godiv": true, "gomod": true, "memI": true, "memS": true, "emptyL": true, "inrange64": true,
-	"bval": true, "ival": true, "sval": true, "ilid": true, "slid": true, "oid": true, "eid": true,
+	"bval": true, "ival": true, "sval": true, "ilid": true, "slid": true, "oid": true, "eid": true, "efam": true,
 }
 
 func (d *Decls) Add(ts ...*T) {
